@@ -105,6 +105,10 @@ CHECKS["C13"] = ("exploration", "hostile-stream monitor: malformed handshakes, O
     "Raw and semi-valid byte streams from the independent peer to a server-kind and a client-kind channel living in a child process; the child must not die, Receive must return after the peer closed, the bytes buffered for incomplete messages must stay within 8 x MaxChunkCount x ReceiveBufSize and no single Receive may allocate more than 512 MiB.",
     "post-open streams under policy None (secured hostile chunks are C09's subject)", "3/C13")
 
+CHECKS["C36"] = ("exploration", "Go race detector (-race build of the worker and its child processes, halt_on_error=0, reports de-duplicated by the pair of top gopcua frames) over the concurrent workloads of the other properties plus in-process fan-out workloads",
+    "The -race build re-runs slices of the workloads of C10-C12, C16, C18-C20, C25-C29 and C34 with their hook-point delays and in-process fan-out rounds (application goroutines changing values/attributes/adding nodes, auto-reconnecting clients with concurrent requests, subscribe/cancel loops, NodeMonitor add/remove, a server-side channel drop); every race report with a gopcua frame is a finding keyed by its site pair.",
+    "sees only executed interleavings; socket I/O between two accesses hides races (compensated by the fan-out rounds and hook delays)", "3/C36")
+
 NOT_YET = {}
 
 
